@@ -1,4 +1,5 @@
 import numpy as np
+from copy import deepcopy
 from device_kit import Device
 from .functions import Poly2D
 
@@ -65,6 +66,7 @@ class GDevice(Device):
       raise ValueError('cost param must be array with 1 or 2 dimensions.')
     if np.array(cost).ndim == 2 and len(cost) != len(self):
       raise ValueError('per-slot cost coefficients need one row per slot (%d)' % (len(self),))
+    cost = deepcopy(cost)
     self._cost_coeffs = cost
     if np.array(cost).ndim == 1:
       self._cost_fn = np.poly1d(cost)
